@@ -33,7 +33,7 @@ NS, CS = [1, 2, 3, 5], [1, 2, 3, 4, 7]
 def cells(tier, seed):
     rnd = core.rng_for(seed, PROP, tier)
     out = []
-    n = 45 if tier == 'quick' else 1200
+    n = 45 if tier == 'quick' else 8000
     for kind in KINDS:
         for _ in range(n):
             c = adapters.random_config(kind, rnd)
